@@ -466,7 +466,7 @@ impl EagerAggregation {
         // Rewrite outer aggregates term by term
         let mut new_aggregates = Vec::with_capacity(agg.aggregates.len());
         for (a, terms) in agg.aggregates.iter().zip(all_terms.iter()) {
-            let new_arg = rebuild_sum_arg(terms, &r_factors)?;
+            let new_arg = rebuild_sum_arg(terms, &r_factors, &join.schema)?;
             let new_sum = Expr::Aggregate {
                 func: AggregateFunction::Sum,
                 args: vec![new_arg],
@@ -646,7 +646,7 @@ fn flatten_factors(e: &Expr, out: &mut Vec<Expr>) {
 
 /// Rebuild a SUM argument from rewritten terms: R factors become their
 /// pre-aggregated sum columns; R-free terms get multiplied by `__ea_cnt`.
-fn rebuild_sum_arg(terms: &[SumTerm], r_factors: &[Expr]) -> Option<Expr> {
+fn rebuild_sum_arg(terms: &[SumTerm], r_factors: &[Expr], schema: &PlanSchema) -> Option<Expr> {
     let cnt_col = Expr::Column(crate::planner::Column {
         relation: None,
         name: "__ea_cnt".to_string(),
@@ -668,7 +668,7 @@ fn rebuild_sum_arg(terms: &[SumTerm], r_factors: &[Expr]) -> Option<Expr> {
             }
         }
         if !had_r {
-            new_factors.push(cast_f64_if_needed(cnt_col.clone(), &term.factors));
+            new_factors.push(cast_f64_if_needed(cnt_col.clone(), &term.factors, schema));
         }
         let mut term_expr = new_factors.pop()?;
         while let Some(f) = new_factors.pop() {
@@ -704,8 +704,28 @@ fn rebuild_sum_arg(terms: &[SumTerm], r_factors: &[Expr]) -> Option<Expr> {
     result
 }
 
-/// Multiply-by-count must not change the term's float typing.
-fn cast_f64_if_needed(cnt: Expr, _factors: &[Expr]) -> Expr {
+/// Multiply-by-count must not change the term's typing: a float term gets a
+/// DOUBLE count, a term whose factors are all integers keeps the BIGINT
+/// count. (An unconditional DOUBLE cast turned `SUM(b)` over integers into a
+/// DOUBLE sum while the Aggregate's schema still said BIGINT, and the value
+/// came out as NULL.) Factors whose type cannot be inferred keep the cast.
+fn cast_f64_if_needed(cnt: Expr, factors: &[Expr], schema: &PlanSchema) -> Expr {
+    let all_integer = factors.iter().all(|f| {
+        matches!(
+            f.data_type(schema),
+            Ok(DataType::Int8)
+                | Ok(DataType::Int16)
+                | Ok(DataType::Int32)
+                | Ok(DataType::Int64)
+                | Ok(DataType::UInt8)
+                | Ok(DataType::UInt16)
+                | Ok(DataType::UInt32)
+                | Ok(DataType::UInt64)
+        )
+    });
+    if all_integer {
+        return cnt;
+    }
     Expr::Cast {
         expr: Box::new(cnt),
         data_type: DataType::Float64,
